@@ -107,6 +107,10 @@ def check(ck):
             fd = dict(facts)
             a_true, k_true = fd.get(va), fd.get(kw)
             t = prov.origin(g, g.nodes[nid], sink_ids[nid])
+            if t[0] == "call" and t[1] in (("global", "list"), ("global", "tuple")) and len(t[2]) == 1 and t[2][0] == ("param", va) and not t[3]:
+                t = ("param", va)       # list(args) / tuple(args): the same arguments (JSON makes a list of either)
+            if t[0] == "call" and t[1] == ("global", "dict") and len(t[2]) == 1 and t[2][0] == ("param", kw) and not t[3]:
+                t = ("param", kw)
             label = "%s: forwards %s when %s=%s %s=%s" % (q.fn(fi), prov.show(t), va, a_true, kw, k_true)
             if a_true is True and k_true is True:
                 ck.bad("C01.1", label, "a call with both positional and keyword arguments is forwarded instead of rejected",
@@ -176,6 +180,9 @@ def check(ck):
         fi = prog.func("jsonrpc", cls + ".__getattr__")
         g = cfg_of(fi)
         mk = q.call_sites(prog, fi, lambda r, c: r == "class:jsonrpc.MultiCallMethod")
+        if not mk and any(isinstance(c_.func, ast.Attribute) and not (isinstance(c_.func.value, ast.Name) and c_.func.value.id == "self")
+                          for n_ in g.live_nodes() for c_ in node_calls(n_)):
+            raise AnalysisError("anchor vanished: %s.__getattr__ creates its job through a method of another object: not modelled" % cls)
         okk = len(mk) == 1 and prov.origin(g, mk[0][0], mk[0][1].args[0]) == ("param", "name")
         nf = kwarg(mk[0][1], "notify", 1) if mk else None
         okk = okk and ((nf is not None and isinstance(nf, ast.Constant) and nf.value is True) if notify else (nf is None or (isinstance(nf, ast.Constant) and nf.value is False)))
@@ -619,7 +626,9 @@ def check(ck):
 
     # ---- C01.11 the found callable is invoked (shared with C05.2) -----------------------------------------------------
     from rules import c05 as _c05
-    common.import_rules(ck, _c05, {"C05.2": "C01.11"})
+    common.import_rules(ck, _c05, {"C05.2": "C01.11", "C05.6": "C01.11"})      # (C05.6: every call the client can emit is accepted as a valid request)
+    from rules import c14 as _c14q
+    common.import_rules(ck, _c14q, {"C14.1": "C01.11"})
     ck.floor("C01.11", 2)
 
     # ---- C01.12 the request pool executes every accepted request (shared with C09.2 / C10.7) -----------------------------
